@@ -158,6 +158,16 @@ mut("c14-bv-by-position", "C14", MB, "                ix = agg_df_taxa_hashtable
 mut("c14-bv-missing-zero", "C14", MB, "        mat = numpy.full((ntaxa,ntrait), numpy.nan, dtype = float)", "        mat = numpy.full((ntaxa,ntrait), 0.0, dtype = float)", "unphenotyped taxa reported as 0")
 mut("c14-rep-shared-in-env", "C14", GE, "                rep_effect = self.rng.multivariate_normal(rep_mean, rep_cov)", "                rep_effect = self.rng.multivariate_normal(rep_mean, rep_cov) if rep == 0 else rep_effect", "one replicate effect reused for all replicates of an environment")
 
+# ---------------------------------------------------------------- C02
+mut("c02-fixed-start-phase", "C02", MU, "        xoix = numpy.flatnonzero(rnd[i] < xoprob)", "        xoix = numpy.flatnonzero(rnd[i,1:] < xoprob[1:]) + 1", "every gamete starts on copy 0")
+mut("c02-one-row-reused", "C02", CU, "        xoix = numpy.flatnonzero(rnd[i] < xoprob)", "        xoix = numpy.flatnonzero(rnd[0] < xoprob)", "one random row decides every gamete")
+mut("c02-probabilities-shifted", "C02", MU, "        xoix = numpy.flatnonzero(rnd[i] < xoprob)", "        xoix = numpy.flatnonzero(rnd[i] < numpy.roll(xoprob, 1))", "crossover probabilities applied one marker late")
+mut("c02-phase-not-alternated", "C02", MU, "            phase = 1 - phase\n", "            phase = 1 - phase if spix % 5 else phase\n", "phase not alternated at every fifth marker")
+mut("c02-kosambi-for-haldane", "C02", "pybrops/popgen/gmap/HaldaneMapFunction.py", "        r = 0.5 * (1.0 - numpy.exp(-2.0 * d))", "        r = 0.5 * numpy.tanh(2.0 * d)", "Haldane map function computes Kosambi's formula")
+mut("c02-selfing-is-backcross", "C02", "pybrops/breed/prot/mate/TwoWayDHCross.py", "            hgeno = mat_mate(hgeno, hgeno, asel, asel, xoprob, self.rng)", "            hgeno = mat_mate(hgeno, geno, asel, fsel, xoprob, self.rng)", "selfing generation backcrosses to the female")
+mut("c02-crossover-suppressed", "C02", CU, "    rnd = rng.uniform(0, 1, gshape)", "    rnd = numpy.sqrt(rng.uniform(0, 1, gshape))", "draws biased towards 1: fewer crossovers than the probabilities say")
+mut("c02-interference", "C02", MU, "        for spix in xoix:\n", "        xoix = xoix[numpy.concatenate([[True], numpy.diff(xoix) > 1])] if len(xoix) else xoix\n        for spix in xoix:\n", "crossovers in adjacent intervals suppress each other (interference)")
+
 
 def run_one(m, runs, tier_args=()):
     scratch = "/dev/shm/pybrops-mut-%s-%d" % (m["id"], os.getpid())
